@@ -24,4 +24,6 @@ run() { # worker i
 for i in $(seq 1 $N); do run $i > /tmp/mt-out-$i.log 2>&1 & done
 wait
 cat /tmp/mt-out-*.log | sort
+# the runs above were made on changed trees: put the evidence files of the unchanged tree back
+git -C /verif checkout -- evidence 2>/dev/null
 for i in $(seq 1 $N); do git worktree remove --force /tmp/mt-$i; done
